@@ -1280,6 +1280,16 @@ lyd_diff_apply_r(struct lyd_node **first_node, struct lyd_node *parent_node, con
             return ret;
         }
 
+        if ((op == LYD_DIFF_OP_REPLACE) && ((match->flags & LYD_DEFAULT) != (diff_node->flags & LYD_DEFAULT))) {
+            /* the moved instance changed its default flag, too */
+            match->flags ^= LYD_DEFAULT;
+            if (match->flags & LYD_DEFAULT) {
+                lyd_np_cont_dflt_set(lyd_parent(match));
+            } else {
+                lyd_np_cont_dflt_del(lyd_parent(match));
+            }
+        }
+
         goto next_iter_r;
     }
 
